@@ -267,26 +267,33 @@ def check(prog, run):
     run.looked_at(a)
     run.looked_at(b)
 
+    from ..canon import Canon
+
     def features(f):
         hooks, handled, adds, completes, resolver_calls, argcalls = set(), set(), [], 0, 0, 0
+        cn = Canon(f.node)
         for fn in [f] + list(f.nested.values()):
             for n in own_nodes(fn.node):
-                if isinstance(n, ast.Call) and isinstance(n.func, ast.Attribute):
-                    if n.func.attr.startswith("on_field_"):
-                        hooks.add((n.func.attr, tuple(ast.unparse(x) for x in n.args)))
-                    if n.func.attr == "add_error":
-                        adds.append(tuple(ast.unparse(x) for x in n.args))
-                    if n.func.attr == "complete_value":
+                if isinstance(n, ast.Call):
+                    ft = cn.func_text(n)
+                    last = ft.rsplit(".", 1)[-1]
+                    if last.startswith("on_field_"):
+                        hooks.add((last, tuple(cn.text(x) for x in n.args)))
+                    if last == "add_error":
+                        adds.append(tuple(cn.text(x) for x in n.args))
+                    if last == "complete_value":
                         completes += 1
-                    if n.func.attr == "argument_values":
+                    if last == "argument_values":
                         argcalls += 1
-                if isinstance(n, ast.Call) and isinstance(n.func, ast.Name) and n.func.id == "resolver":
-                    resolver_calls += 1
+                    if ft.startswith("self.field_resolver("):
+                        resolver_calls += 1
                 if isinstance(n, ast.ExceptHandler) and n.type is not None:
                     ts = n.type.elts if isinstance(n.type, ast.Tuple) else [n.type]
                     handled.update(ast.unparse(t) for t in ts)
-                if isinstance(n, ast.keyword) and n.arg == "else_" and isinstance(n.value, ast.Tuple):
-                    handled.add(ast.unparse(n.value.elts[0]))
+                if isinstance(n, ast.keyword) and n.arg == "else_":
+                    v = cn.expr(n.value)
+                    if isinstance(v, ast.Tuple):
+                        handled.add(ast.unparse(v.elts[0]))
         return hooks, handled, adds, completes, resolver_calls, argcalls
     fa, fb = features(a), features(b)
     for i, what in enumerate(("field hooks and their arguments", "handled exception classes")):
@@ -297,8 +304,8 @@ def check(prog, run):
     for f, ft_ in ((a, fa), (b, fb)):
         r.instance("%s add_error args %s, complete_value calls %d, resolver calls %d" % (f.qualname, ft_[2], ft_[3], ft_[4]))
         for args in ft_[2]:
-            if args != ("err", "path", "node"):
-                run.report(r, "%s:%s:add_error-args" % (f.module.name, f.qualname), f.where(), "field error recorded with %s instead of (err, path, node)" % (args,))
+            if not (len(args) == 3 and args[0] in ("$exc", "$p0") and args[1:] == ("path", "nodes[0]")):
+                run.report(r, "%s:%s:add_error-args" % (f.module.name, f.qualname), f.where(), "field error recorded with %s instead of (the caught error, path, nodes[0])" % (args,))
         if ft_[3] != 1 or ft_[4] != 1 or ft_[5] != 1:
             run.report(r, "%s:%s:shape" % (f.module.name, f.qualname), f.where(),
                        "resolve_field calls complete_value %d, the resolver %d and argument_values %d times (expected once each)" % (ft_[3], ft_[4], ft_[5]))
@@ -324,10 +331,11 @@ def check(prog, run):
     if loop:
         normal, _ = event_paths(None, lambda x: ("append:" + ast.unparse(x.func.value)) if isinstance(x, ast.Call) and isinstance(x.func, ast.Attribute) and x.func.attr == "append" else None,
                                 body=loop[0].body, may_raise=lambda n: None)
+        want = sorted("append:" + k for k in set(keys_pending))
         for seq in normal:
-            if sorted(seq) != ["append:keys", "append:pending"]:
+            if sorted(seq) != want or len(want) != 2:
                 run.report(r, "%s:Executor.execute_fields:parallel-lists(%s)" % (EXE, ">".join(seq)), ef.where(loop[0]),
-                           "keys and pending results are not appended together on every iteration: values would be zipped with the wrong keys")
+                           "the key list and the pending-result list are not appended together, once each, on every iteration: values would be zipped with the wrong keys")
 
     check_flatten_before_finalise(prog, run)
     from . import c09
